@@ -3,6 +3,7 @@
 use super::*;
 use crate::bigint::verif_icommon::*;
 use crate::biguint::verif_common as vc;
+use crate::biguint::BigUint;
 use alloc::{vec, vec::Vec};
 
 /// arithmetic right shift of a two's-complement window by 64*digits + bits
@@ -89,6 +90,73 @@ macro_rules! shl_shape {
         }
     };
 }
+
+// the three FORMS of a BigInt right shift (x >> k, &x >> k, x >>= k) on top of the unsigned shift: rounding adjustment, sign of a
+// result that became zero, order of the two. The unsigned shift (decided by c07_*_shr2_* / c07_*_amount_*) is under a contract here:
+// it returns one arbitrary canonical value G (the same for all forms), so the query is about what BigInt does with it.
+static mut GH_SHR: [u64; 2] = [0; 2];
+static mut GH_SHR_LEN: usize = 0;
+fn ushr_result() -> BigUint {
+    let g = unsafe { GH_SHR };
+    match unsafe { GH_SHR_LEN } {
+        0 => BigUint::ZERO,
+        1 => vc::mk_from(&[g[0]]),
+        _ => vc::mk_from(&[g[0], g[1]]),
+    }
+}
+fn ushr_val_contract(_x: BigUint, _k: u32) -> BigUint { ushr_result() }
+fn ushr_ref_contract<'a>(_x: &'a BigUint, _k: u32) -> BigUint where 'a: 'a { ushr_result() }
+fn ushr_assign_contract(x: &mut BigUint, _k: u32) { *x = ushr_result(); }
+macro_rules! shr_forms_shape {
+    ($name:ident, $neg:expr, $l:expr, $gl:expr) => {
+        #[kani::proof]
+        #[kani::unwind(34)]
+        #[kani::stub(<crate::biguint::BigUint as core::ops::Shr<u32>>::shr, ushr_val_contract)]
+        #[kani::stub(<&crate::biguint::BigUint as core::ops::Shr<u32>>::shr, ushr_ref_contract)]
+        #[kani::stub(<crate::biguint::BigUint as core::ops::ShrAssign<u32>>::shr_assign, ushr_assign_contract)]
+        #[kani::stub(crate::biguint::verif_common::symbolic, crate::biguint::verif_common::yes)]
+        #[kani::stub(alloc::vec::Vec::shrink_to_fit, vc::noop_shrink)]
+        #[kani::stub(core::arch::x86_64::_addcarry_u64, vc::stub_addcarry)]
+        #[kani::stub(crate::biguint::addition::schoolbook_add_assign_x86_64, vc::model_add)]
+        fn $name() {
+            let a0: [u64; $l] = vc::any_canon::<$l>();
+            let x = mkint($neg, &a0);
+            let k: u32 = kani::any();
+            kani::assume(k < 64 * ($l as u32 + 1));
+            let g: [u64; $gl] = vc::any_canon::<$gl>();
+            unsafe {
+                GH_SHR = [vc::dig(&g, 0), vc::dig(&g, 1)];
+                GH_SHR_LEN = $gl;
+            }
+            let r1 = x.clone() >> k;
+            let mut r2 = x.clone();
+            r2 >>= k;
+            let r3 = &x >> k;
+            if !vc::symbolic() {
+                // native: the real unsigned shift ran; exact arithmetic-shift oracle
+                let e = sar_w::<4>(&tc::<4>(&x), (k / 64) as usize, k % 64);
+                check_int::<4>(&r1, &e);
+                check_int::<4>(&r2, &e);
+                check_int::<4>(&r3, &e);
+                return;
+            }
+            let rd = shr_round_down(&x, k);
+            let one: [u64; 1] = [1];
+            let (m, _c) = vc::ref_add::<3>(&g, if rd { &one } else { &[] });
+            let zero = vc::ref_is_zero(&m);
+            kani::assert(int_canonical(&r1) && vc::eq_window(mag(&r1), &m) && is_neg(&r1) == ($neg && !zero), "VERIF BigInt >> k (by value): not (unsigned shift + rounding adjustment) with the sign of x");
+            kani::assert(int_canonical(&r2) && vc::eq_window(mag(&r2), &m) && is_neg(&r2) == ($neg && !zero), "VERIF BigInt >>= k: not (unsigned shift + rounding adjustment) with the sign of x");
+            kani::assert(int_canonical(&r3) && vc::eq_window(mag(&r3), &m) && is_neg(&r3) == ($neg && !zero), "VERIF &BigInt >> k: not (unsigned shift + rounding adjustment) with the sign of x");
+            kani::cover!(!$neg || $gl > 0 || rd, "reach: negative value shifted out completely with a rounding adjustment");
+        }
+    };
+}
+shr_forms_shape!(c07_q_intshr_forms_m1_g0, true, 1, 0);
+shr_forms_shape!(c07_q_intshr_forms_m1_g1, true, 1, 1);
+shr_forms_shape!(c07_q_intshr_forms_m2_g0, true, 2, 0);
+shr_forms_shape!(c07_q_intshr_forms_m2_g2, true, 2, 2);
+shr_forms_shape!(c07_q_intshr_forms_p1_g0, false, 1, 0);
+shr_forms_shape!(c07_q_intshr_forms_p2_g1, false, 2, 1);
 
 // BEGIN GENERATED c07_bigint_shift
 shr_shape!(c07_q_intshr_m1_w0, true, 1, 0, 3, shr_fixed_0);
